@@ -19,7 +19,7 @@ def check(tier, seed):
     specs += specs_projection(tier) + [("contracts.linalg_projector", "unit_projector", {"variant": v, "timeout_ms": t}) for v in ("left-none", "left-same", "left-other")]
     specs += specs_direct(tier)
     d.add_units(fold_canaries(run_units(specs)))
-    d.add_lean(LEAN + ["PV.Direct.greens_solves", "PV.Direct.constrained_injective", "PV.natural_nh"] + ["PV.Inst.filt", "PV.Inst.blocks", "PV.Inst.unperturbed", "PV.Inst.gapped", "PV.Inst.trivNonHermEqs",
+    d.add_lean(LEAN + ["PV.Direct.greens_solves", "PV.Direct.constrained_injective", "PV.Direct.matrix_greens_solves", "PV.Direct.matrix_constrained_injective", "PV.natural_nh"] + ["PV.Inst.filt", "PV.Inst.blocks", "PV.Inst.unperturbed", "PV.Inst.gapped", "PV.Inst.trivNonHermEqs",
                        "PV.Model.filtered", "PV.Model.blocks", "PV.Model.liftNH", "PV.MatrixModel.coeffUnperturbedNH", "PV.MatrixModel.nh_theorems"])
     d.add_callsite_witness("callsite:nonhermitian/H0-commutes-with-kept-part-of-U'", "bd_battery.py", "nh_finding",
                            "hypothesis of PV.NH.X_comm / main_similarity: H_0 commutes with the kept part of U'. block_diagonalize(hermitian=False) "
